@@ -622,6 +622,7 @@ func runCheck(args []string) int {
 			"assume_clauses":           nAssume,
 			"not_covered":              pd.NotCovered,
 			"bounded_standins":         boundedReport,
+			"must_fail_selftest":       readSelftest(verif, pd.ID, tier),
 			"all_obligations":          all,
 			"explanation":              "every obligation is one SMT query generated from the SSA of /repo's working tree and the contracts in */zz_contracts_verif.go; unsat = discharged for all inputs and all iterations (loops via invariants, no unrolling)",
 		},
@@ -661,6 +662,23 @@ func runCheck(args []string) int {
 	}
 	fmt.Printf("%s %s: %d obligations, %d discharged, %d known findings, %d violations, %d functions, %.1fs\n", pd.ID, tier, nObl, nOK-len(knownSeen), len(knownSeen), violations, len(funcsUnder), time.Since(t0).Seconds())
 	return exit
+}
+
+// readSelftest: the result of tools/selftest.sh for this property (thorough tier only): which patches of the must-fail
+// corpus (reverted fixes, seeded changes) made the check report a violation on a scratch copy of /repo.
+func readSelftest(verif, id, tier string) interface{} {
+	if tier != "thorough" {
+		return "thorough tier only"
+	}
+	b, err := os.ReadFile(filepath.Join(verif, "out", "selftest_"+id+".json"))
+	if err != nil {
+		return "not run"
+	}
+	var v interface{}
+	if json.Unmarshal(b, &v) != nil {
+		return "unreadable"
+	}
+	return v
 }
 
 func isTestutil(fn *ssa.Function) bool {
